@@ -207,7 +207,9 @@ static void a_once(const plan_t *p)
     nobj = (int)p->cfg[CF_NOBJ]; if (nobj < 2) nobj = 2; if (nobj > NOBJ) nobj = NOBJ;
     nbuf = 0; maxviews = 0;
     memset(arr, (int)(unsigned char)p->cfg[CF_JUNK], sizeof arr);
-    for (o = 0; o <= NOBJ; o++) { cstl_array_init(&arr[o]); if (o < NOBJ) { mo[o].buf = -1; mo[o].off = mo[o].len = 0; } }
+    for (o = 0; o <= NOBJ; o++) {
+        if (p->cfg[CF_DECL]) { arr[o] = (cstl_array_t)CSTL_ARRAY_INITIALIZER(arr[o]); PROBE("from_initializer_macro"); } else
+        cstl_array_init(&arr[o]); if (o < NOBJ) { mo[o].buf = -1; mo[o].off = mo[o].len = 0; } }
 
     for (k = 0; k < p->nops; k++) {
         const op_t *op = &p->ops[k];
@@ -501,6 +503,7 @@ static void a_exec(const plan_t *p)
 
 static void a_gen(prng_t *r, int mode, plan_t *p)
 {
+    p->cfg[CF_DECL] = DECL_OF_INDEX();    /* one run in five starts from the initializer macros */
     int small = prng_chance(r, 1, 5);
     int nops = small ? 2 + (int)prng_below(r, 7) : 8 + (int)prng_below(r, 42);
     int faults = mode == 14 && prng_chance(r, 1, 4), boundary = prng_chance(r, 1, 3);
